@@ -19,7 +19,7 @@ for i in ids:
         "evidence_file": f"/verif/evidence/{i}.json",
         "replay_cmd_template": "cat {path}",
         "engine": "govc",
-        "technique": "contract-based deductive verification: weakest-precondition VCs generated from go/ssa of the real functions, contracts in /repo/**/contracts_verif.go, discharged by z3/cvc5",
+        "technique": "contract-based deductive verification: weakest-precondition VCs generated from go/ssa of the real functions, contracts in /repo/**/contracts_verif.go, discharged by z3/cvc5" + (("; plus bounded stand-ins (labelled bounded, never counted as proved) for clauses no contract decides: " + ", ".join(s["name"] for s in p.get("stand_ins", []))) if p.get("stand_ins") else ""),
         "level_claimed": {"category": "proof", "text": p.get("level_text", ""), "design_ref": p.get("design_ref", "DESIGN.md §5 " + i)},
         "level_note": p.get("level_note", ""),
     })
@@ -32,7 +32,7 @@ m = {
     "engines": [{"name": "govc", "path": "cmd/govc", "serves_properties": [c["property_id"] for c in checks],
                  "kind_free_text": "self-written weakest-precondition VC generator over go/ssa (x/tools v0.29.0) of /repo's working tree; contracts as //@ comments in /repo/**/contracts_verif.go (build tag verif) and assumed library contracts in /verif/specs; one SMT-LIB query per obligation, raced on z3 5.1.0, z3 4.8.12 and cvc5 1.0"}],
     "checks": checks,
-    "notes": "See DESIGN.md. Every claimed check is a deductive proof over contracts of the real code; clauses of a property that contracts cannot decide are listed in level_note and in the evidence under not_decided.",
+    "notes": "See DESIGN.md. Every claimed check is a deductive proof over contracts of the real code; clauses of a property that contracts cannot decide are listed in level_note and in the evidence under not_decided; where a bounded stand-in (a harness under harness/, injected into the real package with go test -overlay) checks such a clause on inputs built from their parts, it is labelled bounded in the evidence and never counted as proved.",
     "not_applicable": [{"property_id": i, "reason": na.get(i, "contracts not completed yet (framework under construction)")} for i in ids if i not in [c["property_id"] for c in checks]],
 }
 json.dump(m, open(os.path.join(here, 'MANIFEST.json'), 'w'), indent=1)
